@@ -1047,7 +1047,8 @@ class WalletTransaction(Transaction):
 
         session = self.hdwallet.session
         txid = bytes.fromhex(self.txid)
-        tx_query = session.query(DbTransaction).filter_by(txid=txid)
+        # Other wallets in this database can hold a transaction with the same ID: only touch rows of this wallet
+        tx_query = session.query(DbTransaction).filter_by(wallet_id=self.hdwallet.wallet_id, txid=txid)
         tx = tx_query.scalar()
         session.query(DbTransactionOutput).filter_by(transaction_id=tx.id).delete()
         for inp in tx.inputs:
@@ -1063,7 +1064,7 @@ class WalletTransaction(Transaction):
                                DbTransactionInput.transaction_id != inp.transaction_id).first():
                     u.spent = False
         session.query(DbTransactionInput).filter_by(transaction_id=tx.id).delete()
-        qr = session.query(DbKey).filter_by(latest_txid=txid)
+        qr = session.query(DbKey).filter_by(wallet_id=self.hdwallet.wallet_id, latest_txid=txid)
         qr.update({DbKey.latest_txid: None, DbKey.used: False})
         res = tx_query.delete()
         key = qr.scalar()
